@@ -103,12 +103,12 @@ def scriptLoop (D : Decoders) (rs : List Res) (names : J) : List Int → ScrDict
       let j' ← j.append s.contScrNum s.js
       scriptLoop D rs names rest l' j'
 
-/-- `int(castData['palette'])` -/
-def paletteId (c : CastData) : R Int :=
+/-- `int(p) if str(p).lstrip('-').isdigit() else 0` for `p = castData.get('palette', 0)` (after fix F27):
+    only a stored palette *number* counts; an absent key, a system-palette name or palette bytes mean "no custom palette" -/
+def paletteId (c : CastData) : Int :=
   match c.get? "palette" with
-  | none => .error .key
-  | some (.intStr i) => .ok i
-  | some (.tok _) => .error .type
+  | some (.intStr i) => i
+  | _ => 0
 
 /-- the `for rf in kelm` loop over the resources linked to one member -/
 def linkLoop (D : Decoders) (rs : List Res) (fontmap : J) (cast : List CastData) : List Ref → CastData → R CastData
@@ -129,7 +129,7 @@ def linkLoop (D : Decoders) (rs : List Res) (fontmap : J) (cast : List CastData)
     else if res.chunkID = "THUM".toList then
       linkLoop D rs fontmap cast rest cd
     else if res.chunkID = "BITD".toList then do
-      let pid ← paletteId cd
+      let pid := paletteId cd
       let clut ← if pid > 0 then do
           let owner ← pyIndex cast (pid - 1)
           match owner.get? "palette" with
